@@ -21,6 +21,14 @@ class Leaf(Base):
         self.x = x
 
 
+class Open(Base):
+    """takes arbitrary extra keyword arguments: specs for it may carry dict_kwargs"""
+
+    def __init__(self, x: int = 1, **kwargs):
+        self.x = x
+        self.kwargs = kwargs
+
+
 class Node(Base):
     def __init__(self, child: Base, n: int = 0):
         self.child = child
